@@ -23,6 +23,9 @@ use std::panic::{catch_unwind, AssertUnwindSafe};
 const T0: TableDefinition<u64, &[u8]> = TableDefinition::new("t0");
 const T1: TableDefinition<u64, &[u8]> = TableDefinition::new("t1");
 const M0: MultimapTableDefinition<u64, u64> = MultimapTableDefinition::new("m0");
+/// a multimap with byte-string values of up to most of a page: value sets that are branches over
+/// a few large leaves, collapse to inline storage and spill again
+const M1: MultimapTableDefinition<u64, &[u8]> = MultimapTableDefinition::new("m1");
 
 pub(crate) fn tdef(i: usize) -> TableDefinition<'static, u64, &'static [u8]> {
     if i == 0 { T0 } else { T1 }
@@ -37,6 +40,7 @@ pub(crate) fn value_of(len: usize, seed: u64) -> Vec<u8> {
 pub struct Model {
     pub t: [BTreeMap<u64, Vec<u8>>; 2],
     pub m: BTreeMap<u64, BTreeSet<u64>>,
+    pub mb: BTreeMap<u64, BTreeSet<Vec<u8>>>,
 }
 
 impl Model {
@@ -50,6 +54,9 @@ impl Model {
         let m: Vec<(Vec<u8>, Vec<Vec<u8>>)> = self.m.iter().map(|(k, s)| (k.to_le_bytes().to_vec(), s.iter().map(|x| x.to_le_bytes().to_vec()).collect())).collect();
         let total: usize = m.iter().map(|e| e.1.len()).sum();
         v.push(format!("m0:multimap:u64:u64:{}:{}:{:016x}", m.len(), total, crate::mm::dump_hash(&m)));
+        let mb: Vec<(Vec<u8>, Vec<Vec<u8>>)> = self.mb.iter().map(|(k, s)| (k.to_le_bytes().to_vec(), s.iter().cloned().collect())).collect();
+        let total: usize = mb.iter().map(|e| e.1.len()).sum();
+        v.push(format!("m1:multimap:u64:bytes:{}:{}:{:016x}", mb.len(), total, crate::mm::dump_hash(&mb)));
         v.join(" ")
     }
 
@@ -65,7 +72,12 @@ impl Model {
                 h = h.rotate_left(7) ^ fnv64(&[b"m", &k.to_le_bytes(), &v.to_le_bytes()]);
             }
         }
-        let n: usize = self.t.iter().map(|t| t.len()).sum::<usize>() + self.m.values().map(|s| s.len()).sum::<usize>();
+        for (k, s) in &self.mb {
+            for v in s {
+                h = h.rotate_left(9) ^ fnv64(&[b"mb", &k.to_le_bytes(), v]);
+            }
+        }
+        let n: usize = self.t.iter().map(|t| t.len()).sum::<usize>() + self.m.values().map(|s| s.len()).sum::<usize>() + self.mb.values().map(|s| s.len()).sum::<usize>();
         format!("{n}:{h:016x}")
     }
 }
@@ -98,6 +110,20 @@ pub(crate) fn read_all(rt: &ReadTransaction) -> Result<Model, String> {
                     s.insert(v.map_err(|e| format!("{e:?}"))?.value());
                 }
                 m.m.insert(k.value(), s);
+            }
+        }
+        Err(TableError::TableDoesNotExist(_)) => {}
+        Err(e) => return Err(format!("{e:?}")),
+    }
+    match rt.open_multimap_table(M1) {
+        Ok(t) => {
+            for e in t.iter().map_err(|e| format!("{e:?}"))? {
+                let (k, vals) = e.map_err(|e| format!("{e:?}"))?;
+                let mut s = BTreeSet::new();
+                for v in vals {
+                    s.insert(v.map_err(|e| format!("{e:?}"))?.value().to_vec());
+                }
+                m.mb.insert(k.value(), s);
             }
         }
         Err(TableError::TableDoesNotExist(_)) => {}
@@ -300,6 +326,10 @@ pub struct World {
     /// a write transaction was dropped by a caught panic: its pages stay allocated without an
     /// owner until the next open / integrity check rebuilds the allocator state
     pub(crate) leaky: bool,
+    /// ephemeral savepoints that a committed restore has invalidated; probed (they must be refused)
+    /// and dropped by the `ProbeDead` pseudo-step that follows
+    pub(crate) dead_sps: Vec<Sp>,
+    pub(crate) probe_due: bool,
 }
 
 fn dur_name(d: Durability) -> &'static str {
@@ -314,7 +344,7 @@ impl World {
     pub(crate) fn new(cfg: Cfg, focus: &str) -> Self {
         let backend = MemBackend::fresh();
         let db = open_db(backend.clone(), &cfg).expect("create database");
-        World { cfg, backend, db: Some(db), committed: Model::default(), readers: vec![], sps: vec![], psp: BTreeMap::new(), step_no: 0, focus: focus.to_string(), window: vec![(Model::default(), BTreeMap::new())], durable_fp: None, step_extra: String::new(), leaky: false }
+        World { cfg, backend, db: Some(db), committed: Model::default(), readers: vec![], sps: vec![], psp: BTreeMap::new(), step_no: 0, focus: focus.to_string(), window: vec![(Model::default(), BTreeMap::new())], durable_fp: None, step_extra: String::new(), leaky: false, dead_sps: vec![], probe_due: false }
     }
 
     pub(crate) fn db(&self) -> &Database {
@@ -859,6 +889,27 @@ impl World {
                             return Err(format!("remove_all yielded {n} values, expected {want}"));
                         }
                     }
+                    Op::BigMmInsert(k, len, seed) => {
+                        let mut tb = txn.open_multimap_table(M1).map_err(|e| format!("{e:?}"))?;
+                        let v = value_of(*len, *seed);
+                        let existed = tb.insert(*k, v.as_slice()).map_err(|e| format!("{e:?}"))?;
+                        let had = !work.mb.entry(*k).or_default().insert(v);
+                        if existed != had {
+                            return Err(format!("multimap insert of a {len}-byte value reported existed={existed}, expected {had}"));
+                        }
+                    }
+                    Op::BigMmRemove(k, len, seed) => {
+                        let mut tb = txn.open_multimap_table(M1).map_err(|e| format!("{e:?}"))?;
+                        let v = value_of(*len, *seed);
+                        let removed = tb.remove(*k, v.as_slice()).map_err(|e| format!("{e:?}"))?;
+                        let had = work.mb.get_mut(k).is_some_and(|s| s.remove(&v));
+                        if work.mb.get(k).is_some_and(|s| s.is_empty()) {
+                            work.mb.remove(k);
+                        }
+                        if removed != had {
+                            return Err(format!("multimap remove of a {len}-byte value reported removed={removed}, expected {had}"));
+                        }
+                    }
                     Op::PanicInExtractIf(t, backward) => {
                         // a panicking predicate must poison the transaction whichever end drives the iterator (C05)
                         let r = catch_unwind(AssertUnwindSafe(|| {
@@ -973,10 +1024,13 @@ impl World {
                     let (sid, _, _, _) = s.sp.verif_info();
                     if sid <= limit {
                         keep.push(s);
+                    } else {
+                        // kept until the probe that follows this step: using it must be refused
+                        self.dead_sps.push(s);
                     }
-                    // dropping the handle of an invalidated savepoint is what a user would do
                 }
                 self.sps = keep;
+                self.probe_due = true;
             }
         } else {
             // C05/C07: nothing of the abandoned transaction may remain
@@ -1063,6 +1117,7 @@ impl World {
     pub(crate) fn step_reopen(&mut self, out: &mut Out) -> String {
         self.readers.clear();
         self.sps.clear();
+        self.dead_sps.clear();
         self.db = None;
         // the new instance continues the recording (if any) of the one that was just closed
         let old = self.backend.clone();
@@ -1202,6 +1257,9 @@ pub enum Op {
     MmInsert(u64, u64, u64),
     MmRemove(u64, u64, u64),
     MmRemoveAll(u64),
+    /// m1: insert / remove one byte-string value (length, seed) under a key
+    BigMmInsert(u64, usize, u64),
+    BigMmRemove(u64, usize, u64),
     PanicInRetain(usize),
     /// extract_if whose predicate panics at its second call; driven from the front or from the back
     PanicInExtractIf(usize, bool),
@@ -1271,7 +1329,15 @@ pub(crate) fn gen_ops(rng: &mut Rng, page: usize, n: usize) -> Vec<Op> {
                 Op::Retain(t, m, rng.range(1, m))
             }
             74..=76 => Op::DeleteTable(t),
-            77..=88 => Op::MmInsert(rng.below(5), rng.below(40), *rng.pick(&[1u64, 8, 200, 700])),
+            77..=80 => {
+                let i = rng.below(6);
+                Op::BigMmInsert(rng.below(3), [page * 3 / 4, page * 3 / 8, page / 2 + 8, 40, page / 3, 0][i as usize], i)
+            }
+            81..=82 => {
+                let i = rng.below(6);
+                Op::BigMmRemove(rng.below(3), [page * 3 / 4, page * 3 / 8, page / 2 + 8, 40, page / 3, 0][i as usize], i)
+            }
+            83..=88 => Op::MmInsert(rng.below(5), rng.below(40), *rng.pick(&[1u64, 8, 200, 700])),
             89..=95 => Op::MmRemove(rng.below(5), rng.below(40), *rng.pick(&[1u64, 8, 150, 700])),
             _ => Op::MmRemoveAll(rng.below(5)),
         });
@@ -1360,6 +1426,40 @@ pub(crate) fn gen_history(rng: &mut Rng, focus: &str, thorough: bool, page: usiz
             Step::ListPsp
         };
         steps.push(step);
+    }
+    if (focus == "c02" || focus == "c06" || focus == "c05" || focus == "c10") && rng.chance(2, 3) {
+        // life cycle of one multimap value set with large values: inline -> two leaves under a
+        // branch -> back to one leaf / inline -> spilled again, one step per transaction, with a
+        // reader begun in the middle (the pages a step lets go of are committed pages that older
+        // snapshots still need)
+        let k = 7 + rng.below(2);
+        let sizes = [page * 3 / 4, page * 3 / 8, page / 2 + 8, page / 3, 40];
+        let one = |rng: &mut Rng, op: Op| {
+            let d = if rng.chance(1, 3) { Durability::None } else { Durability::Immediate };
+            let end = if rng.chance(1, 8) { End::Abort } else { End::Commit };
+            Step::Txn(TxnSpec { durability: d, two_phase: false, quick_repair: false, sp_ops: vec![], ops: vec![op], end })
+        };
+        let mut order: Vec<usize> = vec![0, 1, 2, 3, 4];
+        for i in (1..order.len()).rev() {
+            order.swap(i, rng.below(i as u64 + 1) as usize);
+        }
+        let mut block = vec![];
+        for (n, i) in order.iter().take(3).enumerate() {
+            block.push(one(rng, Op::BigMmInsert(k, sizes[*i], *i as u64)));
+            if n == 1 {
+                block.push(Step::BeginRead);
+            }
+        }
+        for i in order.iter().take(3) {
+            block.push(one(rng, Op::BigMmRemove(k, sizes[*i], *i as u64)));
+            if rng.chance(1, 3) {
+                block.push(one(rng, Op::BigMmInsert(k, sizes[order[3]], order[3] as u64)));
+            }
+        }
+        let at = rng.below(steps.len() as u64 + 1) as usize;
+        let tail = steps.split_off(at);
+        steps.extend(block);
+        steps.extend(tail);
     }
     if focus == "c06" || focus == "c07" || focus == "c02" {
         // savepoint families: siblings created in one transaction (they share one transaction id),
@@ -1633,6 +1733,9 @@ impl World {
                 out.line(&format!("img check {path} {} commit {}", self.cfg.page, self.committed.tablespecs()));
             }
         }
+        if self.probe_due && self.db.is_some() {
+            // (before the state of this step is shown: the models see the commit, then the probe)
+        }
         if self.leaky {
             if matches!(step, Step::Reopen | Step::CrashReopen) || (matches!(step, Step::CheckIntegrity) && res.starts_with("ok")) {
                 // the allocator state has been rebuilt: exact accounting holds again; the Lean
@@ -1646,7 +1749,42 @@ impl World {
         } else {
             self.check_state(out, &desc);
         }
+        if self.probe_due {
+            self.probe_due = false;
+            self.probe_dead_savepoints(out);
+        }
         true
+    }
+
+    /// C07: "makes savepoints created after it unusable". In an otherwise empty write transaction
+    /// every savepoint that the restore just committed has invalidated is offered to
+    /// restore_savepoint(), which must refuse it; the transaction is aborted and the handles dropped.
+    fn probe_dead_savepoints(&mut self, out: &mut Out) {
+        let dead = std::mem::take(&mut self.dead_sps);
+        let mut res = "ok".to_string();
+        match self.db().begin_write() {
+            Ok(mut txn) => {
+                for d in &dead {
+                    let (sid, _, _, _) = d.sp.verif_info();
+                    match txn.restore_savepoint(&d.sp) {
+                        Err(redb::SavepointError::InvalidSavepoint) => {}
+                        Ok(()) => {
+                            out.oracle_fail(format!("savepoint-still-valid|savepoint {sid} was created after a savepoint that has been restored (and the restore committed), yet restore_savepoint() accepts it"));
+                            res = "accepted".into();
+                        }
+                        Err(e) => out.oracle_fail(format!("savepoint-probe|restore_savepoint() of the invalidated savepoint {sid} failed with {e:?} instead of InvalidSavepoint")),
+                    }
+                }
+                let _ = txn.abort();
+            }
+            Err(e) => res = format!("err:begin:{}", crate::table::err_tag(e)),
+        }
+        drop(dead);
+        out.line(&format!("hist step ProbeDead => {res}"));
+        out.count("dead_savepoint_probes");
+        if !self.leaky {
+            self.check_state(out, "ProbeDead");
+        }
     }
 
     /// While the leak of a panic-dropped transaction is outstanding only this is evaluated: C05
